@@ -15,4 +15,59 @@ UNITS = {
     'IM_isCovers': im('isCovers', 0, ['IM_matches']),
     'IM_isCoveredBy': im('isCoveredBy', 0, ['IM_matches']),
 }
+
+# ---- RelateNG predicate layer (TopologyPredicate protocol) ----
+BP = 'src/operation/relateng/BasicPredicate.cpp'
+IP = 'src/operation/relateng/IMPredicate.cpp'
+RP = 'src/operation/relateng/RelatePredicate.cpp'
+NS = 'geos::operation::relateng::'
+PRE = ['Lib.GenPreludePred']
+BPC = {'UNKNOWN': NS + 'BasicPredicate::UNKNOWN', 'TRUE': NS + 'BasicPredicate::TRUE', 'FALSE': NS + 'BasicPredicate::FALSE'}
+def bp(name, n, deps=(), **kw):
+    return dict(src=BP, qual=NS + 'BasicPredicate::' + name, nparams=n, imports=PRE, deps=list(deps), consts=BPC, **kw)
+def ip(name, n, deps=(), **kw):
+    return dict(src=IP, qual=NS + 'IMPredicate::' + name, nparams=n, imports=PRE, deps=list(deps), **kw)
+VIRT = {'m_isDetermined_0': 'pst -> bool', 'm_valueIM_0': 'pst -> bool'}
+UNITS.update({
+    'BP_isKnownV': bp('isKnown', 1),
+    'BP_toBoolean': bp('toBoolean', 1),
+    'BP_toValue': bp('toValue', 1),
+    'BP_isIntersection': bp('isIntersection', 2),
+    'BP_isKnown': bp('isKnown', 0, ['BP_isKnownV']),
+    'BP_value': bp('value', 0, ['BP_toBoolean']),
+    'BP_setValue': bp('setValue', 1, ['BP_isKnown', 'BP_toValue'], ptypes=['bool']),
+    'BP_setValueIf': bp('setValueIf', 2, ['BP_setValue']),
+    'BP_require': bp('require', 1, ['BP_setValue']),
+    'BP_requireCovers': bp('requireCovers', 2, ['BP_require']),
+    'IP_isDimsCompatibleWithCovers': ip('isDimsCompatibleWithCovers', 2),
+    'IP_init': ip('init', 2),
+    'IP_isDimChanged': ip('isDimChanged', 3),
+    'IP_updateDimension': ip('updateDimension', 3, ['IP_isDimChanged', 'BP_setValue'], virtuals=VIRT),
+    'IP_isIntersects': ip('isIntersects', 2),
+    'IP_intersectsExteriorOf': ip('intersectsExteriorOf', 1, ['IP_isIntersects']),
+    'IP_isDimension': ip('isDimension', 3),
+    'IP_getDimension': ip('getDimension', 2),
+    'IP_finish': ip('finish', 0, ['BP_setValue'], virtuals={'m_valueIM_0': 'pst -> bool'}),
+})
+RGC = {'GEOM_A': NS + 'RelateGeometry::GEOM_A', 'GEOM_B': NS + 'RelateGeometry::GEOM_B'}
+def rp(cls, name, n, deps=(), **kw):
+    kw.setdefault('consts', RGC)
+    return dict(src=RP, qual=NS + 'RelatePredicate::' + cls + 'Predicate::' + name, nparams=n, imports=PRE, deps=list(deps), **kw)
+ENVT = ['Envelope', 'Envelope']
+IM_OF = {'Contains': 'IM_isContains', 'Within': 'IM_isWithin', 'Covers': 'IM_isCovers', 'CoveredBy': 'IM_isCoveredBy', 'Crosses': 'IM_isCrosses',
+         'EqualsTopo': 'IM_isEquals', 'Overlaps': 'IM_isOverlaps', 'Touches': 'IM_isTouches'}
+for cls in IM_OF:
+    UNITS['RP_%s_initDim' % cls] = rp(cls, 'init', 2, ['IP_init', 'IP_isDimsCompatibleWithCovers', 'BP_require'], ptypes=['int', 'int'],
+                                       aliases={'m_base_init_2': 'IP_init.m_init_2'})
+    UNITS['RP_%s_isDetermined' % cls] = rp(cls, 'isDetermined', 0, ['IP_intersectsExteriorOf', 'IP_isIntersects', 'IP_getDimension', 'IP_isDimension'])
+    UNITS['RP_%s_valueIM' % cls] = rp(cls, 'valueIM', 0, [IM_OF[cls]])
+for cls in ['Contains', 'Within', 'Covers', 'CoveredBy']:
+    UNITS['RP_%s_initEnv' % cls] = rp(cls, 'init', 2, ['BP_requireCovers'], ptypes=ENVT)
+    UNITS['RP_%s_requireCovers' % cls] = rp(cls, 'requireCovers', 1)
+    UNITS['RP_%s_requireExteriorCheck' % cls] = rp(cls, 'requireExteriorCheck', 1)
+UNITS['RP_EqualsTopo_initEnv'] = rp('EqualsTopo', 'init', 2, ['BP_setValueIf', 'BP_require'], ptypes=ENVT)
+for cls in ['Intersects', 'Disjoint']:
+    UNITS['RP_%s_initEnv' % cls] = rp(cls, 'init', 2, ['BP_require', 'BP_setValueIf'], ptypes=ENVT)
+    UNITS['RP_%s_updateDimension' % cls] = rp(cls, 'updateDimension', 3, ['BP_setValueIf', 'BP_isIntersection'])
+    UNITS['RP_%s_finish' % cls] = rp(cls, 'finish', 0, ['BP_setValue'])
 ALSO = {'C02': list(UNITS)}
